@@ -261,6 +261,14 @@ PROPERTIES['C15'] = {
          claim='ExecutionContext::Progress() polled while another thread resets the same context for reuse (ResetForStaticFactory: donePhases = 0, then totalPhases = new, interleaved anywhere between Progress()\'s atomic loads): the value stays in [0, 1]',
          bounds='all int counter values with 0 <= done <= total, any new total >= 0; the writer is a model whose store order is the guarantee asserted on the real ResetForStaticFactory by reset_order; progress of the NEXT evaluation between the two loads is outside (a context is documented as one evaluation at a time)',
          targets=['execution_impl.cpp ExecutionContext::Progress']),
+    dict(name='refine_cancel_after_sort', harness='c15_refine.cpp', entry='h_refine_cancel', cancel_oracle=True, models=['stdlib.h', 'libm.h', 'rbtree.h'],
+         redirect={'_ZN8manifold8Manifold4Impl12SortGeometryE.*': 'vf_stub_SortGeometry', '_ZN8manifold8Manifold4Impl9MakeEmptyENS0_5ErrorE': 'vf_stub_MakeEmpty',
+                   '_ZN8manifold8Manifold4Impl9SubdivideE.*': 'vf_stub_Subdivide', '_ZN8manifold8Manifold4Impl13CalculateBBoxEv': 'vf_stub_noop',
+                   '_ZN8manifold8Manifold4Impl20CalculateVertNormalsEv': 'vf_stub_noop', '_ZN8manifold8Manifold4Impl21SetNormalsAndCoplanarEv': 'vf_stub_noop'},
+         backends=['minisat', 'kissat'], timeout=900, unwind={'default': 8}, recursion={'default': 2}, object_bits=12,
+         claim='Impl::Refine (control skeleton): whenever cancellation becomes visible at any check inside Refine or inside its trailing SortGeometry(ctx) - which returns silently on cancel - the Impl ends up emptied with Error::Cancelled, never NoError with a partially sorted mesh',
+         bounds='one concrete 2-triangle closed mesh without tangents; Subdivide, the normal/bbox recomputation and SortGeometry are stubs (SortGeometry\'s stub performs the four cancellation checks of the real one); symbolic: the point at which Cancel() becomes visible (sticky oracle at every atomic load of the flag)',
+         targets=['smoothing.cpp Impl::Refine', 'execution_impl.h IsCancelled']),
     dict(name='reset_order', harness='c15_cancel.cpp', entry='h_reset_order', cdefs=['VF_HAVE_ENV'], extra_roots=['vf_env'], backends=['minisat', 'kissat'], timeout=600, unwind={'default': 3},
          claim='ResetForStaticFactory: an observer computing Progress() before/after each of the four atomic stores never sees a value > 1', bounds='all int counter values, observer at every atomic access', targets=['execution_impl.cpp ResetForStaticFactory']),
   ],
